@@ -21,7 +21,7 @@ RULE = ("streams of 1..3 frames from a message set x chunkings {all 2-way, all 3
 BOUNDS = {
     "quick": "server: streams register+X and register+X+Y over 7 message kinds: all 2-way splits, byte-wise, boundary cuts (<=2 of "
              "{b-1,b,b+1}), <=1 None injected; all truncations.  machine: 12 frames, all 2-way and all 3-way splits (<=80 B)",
-    "thorough": "server: 12 message kinds, streams of 1..3 frames; all 2-way; all 3-way for streams <= 160 B; boundary cuts <= 4; "
+    "thorough": "server: 12 message kinds, streams of 1..3 frames; all 2-way; all 3-way for single-request streams <= 160 B; boundary cuts <= 4; "
                 "<= 2 None answers; all truncations with parked older session + new session probes. machine: all 3-way <= 160 B",
 }
 ASSUMPTIONS = ["k-way splits beyond 3 arbitrary cuts are covered only through the boundary-neighbourhood family and byte-at-a-time",
@@ -223,10 +223,11 @@ def chunkings(frames, tier, three_way_limit):
                 yield ("near", pts), cut(pts)
     else:
         sel = near[:30]
-        for k in (2, 3):
+        multi = len(frames) > 2                      # register + more than one request: keep the cut families smaller
+        for k in ((2,) if multi else (2, 3)):
             for pts in itertools.combinations(sel[:22], k):
                 yield ("near", pts), cut(pts)
-        for pts in itertools.combinations(fb[:14], 4):
+        for pts in itertools.combinations(fb[:10 if multi else 14], 4):
             yield ("near", pts), cut(pts)
     yield ("bytewise", ()), [stream[i:i + 1] for i in range(n)]
     yield ("coalesced", ()), [stream]
@@ -257,7 +258,7 @@ def shard(acc, item, tier, seed):
         base = baseline(frames)
         stream = b"".join(frames)
         if mode == "chunk":
-            lim = 0 if tier == "quick" else 160
+            lim = 0 if (tier == "quick" or len(names) > 1) else 160      # all 3-way splits: single-request streams only
             for label, chunks in chunkings(frames, tier, lim):
                 for cs in with_nones(chunks, tier) if label[0] in ("2way", "bytewise", "coalesced") else [chunks]:
                     acc.ev()
